@@ -226,7 +226,8 @@ func vh_C15_L1_write_accounting() {
 	} else {
 		a.setState(shutdownPending)
 	}
-	n, werr = s.WriteSCTP(nondetBytes(1+vPick(3)), PayloadTypeWebRTCBinary)
+	ppi := []PayloadProtocolIdentifier{PayloadTypeWebRTCBinary, PayloadTypeWebRTCDCEP}[vPick(2)] // DCEP is ordered even on an unordered stream
+	n, werr = s.WriteSCTP(nondetBytes(1+vPick(3)), ppi)
 	vassert(werr != nil && n == 0, "the second write fails")
 	vassert(s.BufferedAmount() == uint64(n1) && a.BufferedAmount() == n1, "a failed write leaves the buffered amount alone")
 	vassert(s.sequenceNumber == ssn && s.nextOrderedMID == omid && s.nextUnorderedMID == umid, "and consumes no sequence number")
